@@ -326,5 +326,25 @@ End: ';';
         c12="TG", w=False, most_specific=False, longest_match=False,
         w_reason="lexical ambiguity with tokens of different lengths")
 
+# a regex terminal that can match the empty string (zero-width tokens), and
+# nullable rules whose empty derivations are cyclic: "bounded time" (C15)
+for algo in ("lr", "glr"):
+    add(f"h_zero_width_regex_{algo}", None, algo=algo, stem="zero_width", inline="""S: T+;
+terminals
+T: /a*/;
+""", sentences=["aaa", "aa aa a"], invalid=["b", "aa b", ""], c12="", w=False, w_reason="zero-width tokens")
+    add(f"h_zero_width_opt_{algo}", None, algo=algo, stem="zero_width_opt", inline="""S: Item+ End;
+Item: Num | Word;
+terminals
+Num: /[0-9]*/;
+Word: /[a-z]+/;
+End: ';';
+""", sentences=["12 ab ;", "ab ;", "7 ;"], invalid=["12 ab", "; ;", "?"], c12="", w=False, w_reason="zero-width tokens")
+    add(f"h_empty_cycle_{algo}", None, algo=algo, stem="empty_cycle", inline="""L: A L | EMPTY;
+A: EMPTY | X;
+terminals
+X: 'x';
+""", sentences=(["", "x", "x x"] if algo == "glr" else []), invalid=["y", "x y"] + ([] if algo == "glr" else ["", "x", "x x"]),
+        c12="", w=False, w_reason="infinitely ambiguous empty derivations; the LR table keeps 'A: EMPTY' and the parser reports the endless reductions", cyclic=(algo == "glr"))
 json.dump({"entries": entries}, open(os.path.join(OUT, "manifest.json"), "w"), indent=1, ensure_ascii=False)
 print(len(entries), "entries")
